@@ -1,16 +1,12 @@
 #!/usr/bin/env python3
 """Regenerates /verif/MANIFEST.json from the table below (keeps it valid at all times)."""
 import json, os, sys
+sys.path.insert(0, os.path.dirname(os.path.abspath(__file__)))
 V = os.path.dirname(os.path.dirname(os.path.abspath(__file__)))
 props = [json.loads(l) for l in open(os.path.join(V, "properties.jsonl"))]
 
 # property -> (technique, level text, level note, design ref)
-CLAIMED = {
- "C01": ("Lean 4 proof: history refinement of the model to the published algorithms (induction over op lists) + differential correspondence model/impl",
-         "Machine-checked proof (Lean 4 kernel) that the model of the three word generators equals the published reference algorithms under the declarative stream semantics for every seed/state and every finite history (run_eq, fillBytes closed form, jump = 2^40 steps for the Weyl generators); the model is tied to /repo by running both on generated seeds x histories and diffing every output and the final state. A disagreement is a concrete input on which the implementation differs from the published algorithm.",
-         "Trusted: Lean kernel; axioms propext/Quot.sound/Classical.choice only; Spec/Published.lean as a faithful transcription of the reference C (anchored by known-answer vectors); the harness and check.py; model=code is sampled by differential testing, not proved. 64-bit little-endian only.",
-         "DESIGN.md 4 (C01)"),
-}
+from claims import CLAIMED
 NOT_YET = "check under construction (framework build in progress); will be claimed"
 
 checks = []
